@@ -239,6 +239,22 @@ func semCases() (out []struct {
 			}
 		}
 	}
+	// container-level slots: a literal or value of the wrong kind where the Go type needs an array or object
+	// (targets read with ReadToken: the position is reconstructed from the previous token)
+	full := `{"A":1,"B":[2,3],"C":{"k":4,"":5},"D":{"E":true},"F":[6,7],"G":"s","H":1.5,"I":{"m~/n":[{"K":8},{"K":9}]}}`
+	for _, c := range []struct{ ptr, good string }{{"/B", `[2,3]`}, {"/C", `{"k":4,"":5}`}, {"/D", `{"E":true}`}, {"/F", `[6,7]`}, {"/I", `{"m~/n":[{"K":8},{"K":9}]}`}, {"/I/m~0~1n", `[{"K":8},{"K":9}]`}, {"/I/m~0~1n/0", `{"K":8}`}} {
+		i := strings.Index(full, c.good)
+		for _, b := range []string{"false", "true", "1", `"s"`, "1.5e1"} {
+			for _, ws := range []string{"", " \n"} {
+				text := full[:i] + ws + b + full[i+len(c.good):]
+				out = append(out, struct {
+					text       string
+					ptr        string
+					start, end int
+				}{text, c.ptr, i + len(ws), i + len(ws) + len(b)})
+			}
+		}
+	}
 	return out
 }
 
@@ -286,7 +302,10 @@ func replayCase(cs Case) string {
 	case "decoder-positions":
 		return c05.CheckPositions(cs.Input, cs.Program)
 	case "encoder-positions":
-		return c06.ReplayCase(c06.Case{OptSet: "default", Ops: cs.Ops})
+		if cs.Program == "" {
+			cs.Program = "default"
+		}
+		return c06.ReplayCase(c06.Case{OptSet: cs.Program, Ops: cs.Ops})
 	case "semantic":
 		for _, c := range semCases() {
 			if c.text == cs.InputText {
@@ -411,12 +430,19 @@ func encoderPositions(r *evid.Run) {
 	if r.Tier == "thorough" {
 		d = 6
 	}
-	o := &c06.OptSets()[0]
+	k := len(alpha)
+	for _, o := range []*c06.OptSet{&c06.OptSets()[0], &c06.OptSets()[1]} { // default and AllowDuplicateNames (names are tracked by different code)
+		encoderPositionsFor(r, o, alpha, d)
+	}
+	r.Bound("(a) encoder: all %d^%d call sequences over a pointer-sensitive alphabet, with and without AllowDuplicateNames", k, d)
+}
+
+func encoderPositionsFor(r *evid.Run, o *c06.OptSet, alpha []c06.Op, d int) {
 	k := len(alpha)
 	enum.Parallel(r, k*k, func(w *enum.Worker) func(int) {
 		seq := make([]int, d)
 		var tr, traces int64
-		w.Describe = func() any { return Case{Part: "encoder-positions", Ops: lab(alpha, seq)} }
+		w.Describe = func() any { return Case{Part: "encoder-positions", Ops: lab(alpha, seq), Program: o.Name} }
 		w.Done = func() {
 			r.Transitions.Add(tr)
 			r.Traces.Add(traces)
@@ -432,7 +458,7 @@ func encoderPositions(r *evid.Run) {
 					traces++
 					tr += int64(d)
 					if step, m := c06.CheckSeq(o, alpha, seq); m != "" {
-						report(r, Case{Part: "encoder-positions", Ops: lab(alpha, seq[:step+1])}, m)
+						report(r, Case{Part: "encoder-positions", Ops: lab(alpha, seq[:step+1]), Program: o.Name}, m)
 					}
 					w.Beat()
 					return
@@ -445,7 +471,6 @@ func encoderPositions(r *evid.Run) {
 			rec(2)
 		}
 	})
-	r.Bound("(a) encoder: all %d^%d call sequences over a pointer-sensitive alphabet", k, d)
 }
 
 func lab(alpha []c06.Op, seq []int) []string {
